@@ -48,6 +48,20 @@ static std::string judge(DocT& doc, const MV& want, const WbPlan& plan, Case& c,
       *wb = std::move(moved);
       break;
     }
+    case 4:
+    case 5: {  // the buffer was used, then its contents were moved AWAY (4: by move-assignment, 5: by move-construction); now it is used again
+      wb.reset(new WriteBuffer(plan.cap));
+      Document other;
+      other.Parse(plan.prior.empty() ? std::string("[1,2,3]") : plan.prior);
+      if (!other.HasParseError() && other.Serialize(*wb) != kErrorNone) return "ORACLE-SELF-CHECK: prior document failed to serialise";
+      if (plan.kind == 4) {
+        WriteBuffer keep;
+        keep = std::move(*wb);
+      } else {
+        WriteBuffer keep(std::move(*wb));
+      }
+      break;
+    }
     default: wb.reset(new WriteBuffer()); break;
   }
   SonicError e = doc.Serialize(*wb);
@@ -151,14 +165,23 @@ static void property(Src& s, Case& c) {
   go.max_depth = 8;
   go.prefer_container_root = s.coin(3, 4);
   MV v = gen_value(s, go);
+  if (s.coin(1, 20)) {
+    // the value sits under 9..70 more levels of one-child arrays / objects (the serializer keeps a frame per open container)
+    int levels = s.coin(1, 2) ? s.range(14, 20) : s.range(9, 70);
+    for (int i = 0; i < levels; i++) {
+      if (s.coin(1, 2)) { MV w = MV::arr(); w.a.push_back(v); v = w; }
+      else { MV w = MV::obj(); w.o.emplace_back(s.coin(1, 2) ? "k" : "", v); v = w; }
+    }
+    c.cls("depth>=17(one-child wrappers)");
+  }
   bool by_parse = s.coin(1, 2);
   bool freeing = s.coin(1, 2);
   bool nonfinite = s.coin(1, 12);
   WbPlan plan;
-  plan.kind = (int)s.weighted({3, 4, 3, 1});
+  plan.kind = (int)s.weighted({3, 4, 3, 1, 1, 1});
   static const size_t caps[] = {0, 1, 2, 7, 8, 63, 64, 255, 256, 4096};
   plan.cap = caps[s.index(10)];
-  if (plan.kind == 2) {
+  if (plan.kind == 2 || plan.kind >= 4) {
     GenOpts g2;
     g2.max_nodes = s.coin(1, 2) ? 3 : 120;
     plan.prior = refjson::write(gen_value(s, g2));
@@ -175,7 +198,7 @@ static void property(Src& s, Case& c) {
   c.note("value", refjson::write(v));
   c.cls(by_parse ? "built:parse" : "built:mutation-api");
   c.cls(freeing ? "alloc:freeing" : "alloc:pool");
-  static const char* wk[] = {"fresh", "capacity", "reused", "moved"};
+  static const char* wk[] = {"fresh", "capacity", "reused", "moved", "moved-from(assign)", "moved-from(construct)"};
   c.cls(std::string("wb:") + wk[plan.kind] + (plan.kind == 1 || plan.kind == 3 ? ("/" + std::to_string(plan.cap)) : ""));
   bool has_esc = false, has_big = false;
   {
